@@ -100,7 +100,7 @@ Definition local_clean_b (s : schema) : bool :=
   negb (match s_items_tuple s with Some [] => true | _ => false end) &&
   negb (match s_add_items s with Some (false, Some _) => true | _ => false end) &&
   (* objects *)
-  is_nil_b (s_pat_props s) && forallb (fun kp => is_none (s_default (snd kp)) || negb (existsb (Z.eqb (fst kp)) (s_required s))) (s_props s) && nodup_b (map fst (s_props s)) &&
+  (forallb (fun pp => o_re_ok OR (fst pp)) (s_pat_props s) && nodup_b (map fst (s_pat_props s))) && forallb (fun kp => is_none (s_default (snd kp)) || negb (existsb (Z.eqb (fst kp)) (s_required s))) (s_props s) && nodup_b (map fst (s_props s)) &&
   negb (match s_add_props s with Some (false, Some _) => true | _ => false end) &&
   (* composition *)
   nodup_b (map fst (s_deps s)) &&
@@ -132,7 +132,7 @@ Proof.
     split; [intros E; rewrite E in L7; discriminate|].
     intros sa E. rewrite E in L6. discriminate. }
   split.
-  { split; [revert L5; destruct (s_pat_props s); [reflexivity | discriminate]|].
+  { split; [apply andb_true_iff in L5; destruct L5 as [P1 P2]; split; [apply (forallb_Forall _ _ _ (fun pp Hpp => Hpp) P1) | apply nodup_b_sound; exact P2]|].
     split; [intros k ps Hin Hd Hr; pose proof (proj1 (forallb_forall _ _) L4 (k, ps) Hin) as E; cbn [fst snd] in E;
             apply orb_true_iff in E; destruct E as [E | E]; [destruct (s_default ps); [discriminate | apply Hd; reflexivity]|];
             apply negb_true_iff in E; assert (E' : existsb (Z.eqb k) (s_required s) = true) by (apply existsb_exists; exists k; split; [exact Hr | apply Z.eqb_refl]); congruence|].
